@@ -17,19 +17,19 @@ CLAIMED = {
             'layout grammar + read/rewrite/scale traces validated'),
     'C14': ('5/C14, 3.7',
             'CamxLayout_MC transcribes the decision procedures of the memory-mapped uamiv, wind, cloud/rain and lateral boundary readers (headers must be mappable; whole blocks; the wind reader walks the first step; the cloud/rain reader guesses 5 or 3 variables from the size) and checks for EVERY cut offset of every configuration (1.4M states thorough; a 1 MB file through closed-form sizes that TLC checks against the grammar) that it never exposes more than the complete steps and reads the full file completely. Every proper prefix of reference-encoded files (all offsets for files up to 1.5 kB, block boundaries +-1 and a sample otherwise) is opened under a timer; Camx_Trace requires raise, or complete steps with data and time flags identical to the full file, never a hang, and the outcome the model predicts.',
-            'Trusted: the typed-field serialiser and the length-marker record walker in harness/camx.py (they know field types, not formats), TLC. Scope: nine formats in one layout grammar - gridded uamiv (AVERAGE/EMISSIONS, 1-3 species with names of 1-10 characters, grids up to 3x2x2, 1-3 hourly steps, seven start instants incl. year ends 1999/2011/2069, leap days, the 1970 pivot, both end-of-day spellings), one3d, humidity, vertical diffusivity, temperature, height/pressure (grids up to 3x2x2 / 1x2x3, 1-3 steps, three starts), wind (two- and three-word time records, grids of at least 4 cells, 1-3 and 7 steps), cloud/rain (5 and 3 variables) and lateral boundary (1-3 species, grids of at least 2x2). Land use is not modelled (DESIGN.md I.2); data are integer tokens, arbitrary float payloads only through the byte-identity clause. GEOS-Chem bpch files: spec/BpchLayout.tla BpchOpenZ is the transcribed header walk + whole-block rule of bpch1, model-checked on every cut offset of 144 configurations (BpchNeverFabricates, BpchFullFileReadsAll, BpchPartialBlock) and bound by Bpch_Trace (kind cuts: outcome = model, exposed blocks identical to the full file). Known findings C14_K1 (headerless met formats), C14_K2 (cloud/rain variant guessed from the size) and C14_K3 (bpch prefix ending on a tracer boundary of the first block) are format-inherent and reported as KNOWN-FINDING.',
+            'Trusted: the typed-field serialiser and the length-marker record walker in harness/camx.py (they know field types, not formats), TLC. Scope: nine formats in one layout grammar - gridded uamiv (AVERAGE/EMISSIONS, 1-3 species with names of 1-10 characters, grids up to 3x2x2, 1-3 hourly steps, seven start instants incl. year ends 1999/2011/2069, leap days, the 1970 pivot, both end-of-day spellings), one3d, humidity, vertical diffusivity, temperature, height/pressure (grids up to 3x2x2 / 1x2x3, 1-3 steps, three starts), wind (two- and three-word time records, grids of at least 2 cells incl. slabs of the time record's size, 1-3 and 7 steps), cloud/rain (5 and 3 variables) and lateral boundary (1-3 species, grids of at least 2x2). Land use is not modelled (DESIGN.md I.2); data are integer tokens, arbitrary float payloads only through the byte-identity clause. GEOS-Chem bpch files: spec/BpchLayout.tla BpchOpenZ is the transcribed header walk + whole-block rule of bpch1, model-checked on every cut offset of 144 configurations (BpchNeverFabricates, BpchFullFileReadsAll, BpchPartialBlock) and bound by Bpch_Trace (kind cuts: outcome = model, exposed blocks identical to the full file). Known findings C14_K1 (headerless met formats), C14_K2 (cloud/rain variant guessed from the size) and C14_K3 (bpch prefix ending on a tracer boundary of the first block) are format-inherent and reported as KNOWN-FINDING.',
             'cut-point model checking + prefix scans validated'),
     'C13': ('5/C13, 3.7',
             'Every reference-encoded file that both reader families accept is opened with the memory-mapped and the sequential reader; Camx_Trace requires equal lengths of the dimensions both define, equal float data and equal time flags (where both define them); a reader that does not terminate within the timeout is a machinery-visible failure.',
-            'Trusted: the typed-field serialiser and the length-marker record walker in harness/camx.py (they know field types, not formats), TLC. Scope: nine formats in one layout grammar - gridded uamiv (AVERAGE/EMISSIONS, 1-3 species with names of 1-10 characters, grids up to 3x2x2, 1-3 hourly steps, seven start instants incl. year ends 1999/2011/2069, leap days, the 1970 pivot, both end-of-day spellings), one3d, humidity, vertical diffusivity, temperature, height/pressure (grids up to 3x2x2 / 1x2x3, 1-3 steps, three starts), wind (two- and three-word time records, grids of at least 4 cells, 1-3 and 7 steps), cloud/rain (5 and 3 variables) and lateral boundary (1-3 species, grids of at least 2x2). Land use is not modelled (DESIGN.md I.2); data are integer tokens, arbitrary float payloads only through the byte-identity clause. spec/RecordFile.tla is the cursor automaton of FortranFileUtil.RecordFile (next, previous, restart_record, unpack, read, eof as functions of file and cursor): RecordFile_MC checks CursorOnRecord, NextFalseOnlyAtEnd, PrevUndoesNext, PrevAfterFailedNext, ScanVisitsAll and EofTruthful on every call sequence of length 4 (quick) / 5 over all tiled files of up to 3 / 4 records, shows that two deviations are detected, and emits every sequence; each is replayed on a real RecordFile and RecordFile_Trace requires (tell, record_start, record_size, return value) after every call to equal Apply(op, lens, cursor).',
+            'Trusted: the typed-field serialiser and the length-marker record walker in harness/camx.py (they know field types, not formats), TLC. Scope: nine formats in one layout grammar - gridded uamiv (AVERAGE/EMISSIONS, 1-3 species with names of 1-10 characters, grids up to 3x2x2, 1-3 hourly steps, seven start instants incl. year ends 1999/2011/2069, leap days, the 1970 pivot, both end-of-day spellings), one3d, humidity, vertical diffusivity, temperature, height/pressure (grids up to 3x2x2 / 1x2x3, 1-3 steps, three starts), wind (two- and three-word time records, grids of at least 2 cells incl. slabs of the time record's size, 1-3 and 7 steps), cloud/rain (5 and 3 variables) and lateral boundary (1-3 species, grids of at least 2x2). Land use is not modelled (DESIGN.md I.2); data are integer tokens, arbitrary float payloads only through the byte-identity clause. spec/RecordFile.tla is the cursor automaton of FortranFileUtil.RecordFile (next, previous, restart_record, unpack, read, eof as functions of file and cursor): RecordFile_MC checks CursorOnRecord, NextFalseOnlyAtEnd, PrevUndoesNext, PrevAfterFailedNext, ScanVisitsAll and EofTruthful on every call sequence of length 4 (quick) / 5 over all tiled files of up to 3 / 4 records, shows that two deviations are detected, and emits every sequence; each is replayed on a real RecordFile and RecordFile_Trace requires (tell, record_start, record_size, return value) after every call to equal Apply(op, lens, cursor).',
             'both readers on generated files + record-cursor automaton model-checked and replayed, traces validated'),
     'C09': ('5/C09, 3.7',
             'spec/CamxLayout.tla is the independent codec: the published record/field layout as a TLA+ grammar. Direction A: the bytes written by the library are walked into records (length markers only) and every record is matched field by field against Layout(c) (markers agree, exact tiling, header counts, names, time flags as instants, token values). Direction B: Layout(c) is serialised by a typed-field encoder and must be presented as exactly the encoded content by every reader of the format (memory-mapped and sequential) - a symmetric writer/reader error no longer cancels. CamxLayout_MC checks tiling on all configurations.',
-            'Trusted: the typed-field serialiser and the length-marker record walker in harness/camx.py (they know field types, not formats), TLC. Scope: nine formats in one layout grammar - gridded uamiv (AVERAGE/EMISSIONS, 1-3 species with names of 1-10 characters, grids up to 3x2x2, 1-3 hourly steps, seven start instants incl. year ends 1999/2011/2069, leap days, the 1970 pivot, both end-of-day spellings), one3d, humidity, vertical diffusivity, temperature, height/pressure (grids up to 3x2x2 / 1x2x3, 1-3 steps, three starts), wind (two- and three-word time records, grids of at least 4 cells, 1-3 and 7 steps), cloud/rain (5 and 3 variables) and lateral boundary (1-3 species, grids of at least 2x2). Land use is not modelled (DESIGN.md I.2); data are integer tokens, arbitrary float payloads only through the byte-identity clause. Known findings C09_K1 (sequential uamiv/temperature readers and day/century roll-over) and C09_K2 (sequential met readers and single-step files) are reported as KNOWN-FINDING.',
+            'Trusted: the typed-field serialiser and the length-marker record walker in harness/camx.py (they know field types, not formats), TLC. Scope: nine formats in one layout grammar - gridded uamiv (AVERAGE/EMISSIONS, 1-3 species with names of 1-10 characters, grids up to 3x2x2, 1-3 hourly steps, seven start instants incl. year ends 1999/2011/2069, leap days, the 1970 pivot, both end-of-day spellings), one3d, humidity, vertical diffusivity, temperature, height/pressure (grids up to 3x2x2 / 1x2x3, 1-3 steps, three starts), wind (two- and three-word time records, grids of at least 2 cells incl. slabs of the time record's size, 1-3 and 7 steps), cloud/rain (5 and 3 variables) and lateral boundary (1-3 species, grids of at least 2x2). Land use is not modelled (DESIGN.md I.2); data are integer tokens, arbitrary float payloads only through the byte-identity clause. Known findings C09_K1 (sequential uamiv/temperature readers and day/century roll-over) C09_K2 (sequential met readers and single-step files) and C09_K3 (sequential wind reader and slabs of the time record's size) are reported as KNOWN-FINDING.',
             'layout grammar as codec, both directions validated'),
     'C08': ('5/C08, 3.7',
             'For every configuration emitted by CamxLayout_MC a CAMx-convention file is built from the configuration alone (with and without ETFLAG), written with pncgen(format=uamiv), read back with the memory-mapped reader and written again; Camx_Trace requires the re-read content (dimensions, species order, token data, begin/end time flags as instants, and the grid header of the self-describing formats: origin, cell sizes with XCELL # YCELL, projection parameters, time zone) to equal the configuration and the second output to be byte-identical.',
-            'Trusted: the typed-field serialiser and the length-marker record walker in harness/camx.py (they know field types, not formats), TLC. Scope: nine formats in one layout grammar - gridded uamiv (AVERAGE/EMISSIONS, 1-3 species with names of 1-10 characters, grids up to 3x2x2, 1-3 hourly steps, seven start instants incl. year ends 1999/2011/2069, leap days, the 1970 pivot, both end-of-day spellings), one3d, humidity, vertical diffusivity, temperature, height/pressure (grids up to 3x2x2 / 1x2x3, 1-3 steps, three starts), wind (two- and three-word time records, grids of at least 4 cells, 1-3 and 7 steps), cloud/rain (5 and 3 variables) and lateral boundary (1-3 species, grids of at least 2x2). Land use is not modelled (DESIGN.md I.2); data are integer tokens, arbitrary float payloads only through the byte-identity clause.',
+            'Trusted: the typed-field serialiser and the length-marker record walker in harness/camx.py (they know field types, not formats), TLC. Scope: nine formats in one layout grammar - gridded uamiv (AVERAGE/EMISSIONS, 1-3 species with names of 1-10 characters, grids up to 3x2x2, 1-3 hourly steps, seven start instants incl. year ends 1999/2011/2069, leap days, the 1970 pivot, both end-of-day spellings), one3d, humidity, vertical diffusivity, temperature, height/pressure (grids up to 3x2x2 / 1x2x3, 1-3 steps, three starts), wind (two- and three-word time records, grids of at least 2 cells incl. slabs of the time record's size, 1-3 and 7 steps), cloud/rain (5 and 3 variables) and lateral boundary (1-3 species, grids of at least 2x2). Land use is not modelled (DESIGN.md I.2); data are integer tokens, arbitrary float payloads only through the byte-identity clause.',
             'layout model + write/read/rewrite traces validated'),
     'C07': ('5/C07, 3.6',
             'spec/NcStore.tla models the fill-value mechanism (disk fill precedence, data fill, netCDF4 auto-masking) - NcStore_MC checks that the mask survives for all 27 combinations of missing_value/fill_value/_FillValue under the specified data fill and exhibits the losing combination under the attribute-first deviation - and defines StoreDiff, the field-by-field meaning of "reproduces" (dimension names/order/lengths/unlimited flags, global attributes, variable names/order/dtype/dimension tuples, masks, bit-identical unmasked values, variable attributes modulo _FillValue on masked variables). Generated files (11 dtypes incl. char, unsigned and 64-bit; unmasked/partly/fully masked; every fill-attribute combination, with 0 as a fill value in a third of the masked cases; two unlimited dimensions in NETCDF4; scalar/1-D/2-D/3-D; unlimited none/first/not first; str/int/float/array attributes; float payloads with -0.0 and denormals) are saved in all four flavours with and without compression, closed, reopened with format named and by auto-detection (one process per case) and validated by NcStore_Trace; a save may raise only when a dtype is not representable in the flavour.',
